@@ -263,6 +263,16 @@ func F2(thorough bool) []*Program {
 				}}}})
 		}
 	}
+	// context.Context supplied by a provider of the graph (and by a struct field), with and
+	// without Async providers: the injector still takes its own context when something is Async
+	add(&Program{Desc: "context supplied by a provider", Types: typeNames(4), Decls: []Decl{{
+		Name: "InitP", Request: "*T0", Provs: []Prov{
+			fn("NewT1", nil, []string{"*T1"}, false),
+			fn("NewCtx", []string{"*T1"}, []string{"context.Context"}, false),
+			fn("NewT2", []string{"context.Context", "*T1"}, []string{"*T2"}, true),
+			fn("NewT3", nil, []string{"*T3"}, false),
+			fn("NewT0", []string{"*T2", "*T3"}, []string{"*T0"}, false),
+		}}}})
 	// Bind written around Async
 	add(&Program{Desc: "bind-outside-async", Types: typeNames(3), Ifaces: map[string]string{"I0": "T1"}, Decls: []Decl{{
 		Name: "InitP", Request: "*T0", Provs: []Prov{
